@@ -152,6 +152,13 @@ func LabelID(id int64) string {
 //
 //	http://www.llvm.org/docs/LangRef.html#identifiers
 func TypeName(name string) string {
+	// Numeric type names are kept in quoted form (e.g. `"42"`) to distinguish
+	// them from type IDs (e.g. `42`); print them as is.
+	if n := len(name); n > 2 && name[0] == '"' && name[n-1] == '"' {
+		if _, err := strconv.ParseInt(name[1:n-1], 10, 64); err == nil {
+			return "%" + name
+		}
+	}
 	return "%" + EscapeIdent(name)
 }
 
